@@ -738,7 +738,12 @@ def splice_fn(text, spec, unit_rewrites=()):
         lost += l2
     out = []
     if spec is not None:
-        for a in spec.attrs:
+        attrs = list(spec.attrs)
+        # every function under contract gets its own solver context: an edit elsewhere in the unit
+        # (or a new library lemma) then cannot perturb this proof (robustness; no semantic effect)
+        if (spec.requires or spec.ensures or spec.hints) and not any("spinoff_prover" in a for a in attrs):
+            attrs.append("#[verifier::spinoff_prover]")
+        for a in attrs:
             out.append(a + "\n")
         if spec.external_body:
             out.append("#[verifier::external_body]\n")
